@@ -122,7 +122,7 @@ const c03Rule = "case = (tree of files / plain dirs / HAMT dirs with names incl.
 func TestC03_P_PathSelector(t *testing.T) {
 	ev := newEvid(t, c03Rule)
 	rapid.Check(t, func(t *rapid.T) {
-		root := genTree(t, 3, scale(8, 14))
+		root := genTreeOpt(t, 3, scale(8, 14), treeOpts{Hand: true, OldStyle: true, Unsorted: true})
 		st := NewStore()
 		if err := root.build(st); err != nil {
 			t.Fatalf("build tree: %v", err)
@@ -269,7 +269,9 @@ var c03Probes = []c03Probe{
 	{func() *tnode {
 		return c03Dir(false, map[string]*tnode{"s": c03Dir(true, map[string]*tnode{collisions.Pairs[0][0]: c03File(7), collisions.Pairs[0][1]: c03File(8)})})
 	}, []string{"s", collisions.Pairs[0][1]}},
-	{func() *tnode { return c03Dir(false, map[string]*tnode{"..": c03Dir(false, map[string]*tnode{".": c03File(2)})}) }, []string{"..", "."}},
+	{func() *tnode {
+		return c03Dir(false, map[string]*tnode{"..": c03Dir(false, map[string]*tnode{".": c03File(2)})})
+	}, []string{"..", "."}},
 }
 
 // TestC03_K_MatchPath probes the matchPath=true behaviour on five fixed cases and classifies what it sees:
